@@ -125,6 +125,7 @@ SPECS = {
             {"name": "offpolicy", "runs": {"quick": 120, "thorough": 1000000}, "chunks": {"quick": 1, "thorough": 1}},
             {"name": "protocol", "runs": {"quick": 60, "thorough": 1000000}, "chunks": {"quick": 1, "thorough": 1}},
             {"name": "rollout", "runs": {"quick": 6, "thorough": 1000000}, "chunks": {"quick": 1, "thorough": 1}},
+            {"name": "ring", "runs": {"quick": 120, "thorough": 1000000}, "chunks": {"quick": 1, "thorough": 1}},
         ],
         "budget_s": {"quick": 600, "thorough": 1200},
         "rule": "one evaluation = one seeded run with an injected fault or mode knob: (a) F.node_perturb: one parallel node's start state / policy "
